@@ -537,12 +537,20 @@ class Gen:
         except Exception:
             self.rejected += 1
             return None
-        if arr.ndim > 3 or int(numpy.prod(arr.shape, dtype=int)) > 600 or 0 in arr.shape:
+        if arr.ndim > 4 or int(numpy.prod(arr.shape, dtype=int)) > 600 or 0 in arr.shape:
             self.rejected += 1
             return None
         return Entry(e, arr, **kw)
 
-    def rand_shape(self):
+    def rand_shape(self, p_high=.16):
+        """ndim 0-2 mostly; with probability p_high an argument of ndim 3 (rarely 4) whose axis lengths
+        are all different in the leading positions (ravel/unravel order of multi-indices matters there)."""
+        if self.max_ndim >= 2 and self.rng.random() < p_high:
+            base = [[2, 3, 4], [4, 2, 3], [3, 4, 2], [2, 4, 3], [3, 2, 4], [4, 3, 2], [1, 3, 2], [2, 3, 1]]
+            shape = tuple(base[int(self.rng.integers(len(base)))])
+            if self.rng.random() < .2:
+                shape = shape + (2,) if self.rng.random() < .5 else (2, 3, 4, 2) if self.rng.random() < .5 else (3, 2, 2, 4)
+            return shape
         nd = int(self.rng.choice([0, 1, 1, 2, 2][:2 + 2 * self.max_ndim - 1] if self.max_ndim < 2 else [0, 1, 1, 2, 2]))
         shape = tuple(int(self.rng.choice(LENGTHS)) for _ in range(nd))
         if nd == 2 and self.rng.random() < .3:
@@ -577,7 +585,7 @@ class Gen:
             pool.append(self.entry(be, topo=True))
             n = len(T.basis(bt, deg))
             for _ in range(int(rng.integers(1, 3))):
-                extra = [] if rng.random() < .75 else [T.ndims]
+                extra = [] if rng.random() < .7 else [T.ndims] if rng.random() < .7 or n > 12 else [2, 3]
                 name = self.new_name()
                 self.decl[name] = [[n] + extra, 'float']
                 fe = ['field', name, be, extra]
@@ -630,7 +638,7 @@ class Gen:
                 ops = ['mul'] if a.dtype != b.dtype else []
             if a.dtype == 'float' and b.dtype == 'float':
                 ops += ['divc'] + (['maximum'] if allow_kinks and rng.random() < .2 else [])
-            if a.shape == b.shape and a.dtype == b.dtype and len(a.shape) < 3 and rng.random() < .3:
+            if a.shape == b.shape and a.dtype == b.dtype and len(a.shape) < 4 and rng.random() < .3:
                 ops += ['stack'] + (['concat'] if a.shape else [])
             if not ops:
                 return None
@@ -667,7 +675,7 @@ class Gen:
                     new = self.entry(['u', 'T', a.e], **kw)
                 elif k < .85 and nd == 2 and a.shape[0] == a.shape[1]:
                     new = self.entry(['u', 'trace', a.e], **kw)
-                elif nd < 3:
+                elif nd < 4:
                     new = self.entry(['ins', a.e, int(rng.integers(nd + 1))], **kw)
         if new is not None:
             pool.append(new)
@@ -864,7 +872,7 @@ def gen_function(rng, tier, smooth_only=False, dtypes=None, nested_replace=True,
                     # capture_free: no integral-valued replacement at the level of a function that loops itself
                     # (open finding C13-replacement-loop-capture; only the replace monitor can attribute it)
                     g.add_replace(g.free_pool, cand[int(rng.integers(len(cand)))], allow_integral=not capture_free)
-        cands = [p for p in g.free_pool if p.args and p.nops >= 2 and p.dtype != 'bool' and len(p.shape) <= 2 and (not smooth_only or p.smooth)]
+        cands = [p for p in g.free_pool if p.args and p.nops >= 2 and p.dtype != 'bool' and len(p.shape) <= 3 and (not smooth_only or p.smooth)]
         if g.topo_key:
             t = [p for p in cands if p.topo]
             cands = t or cands
@@ -898,8 +906,15 @@ def gen_polynomial(rng, tier):
         fields = []
         for _ in range(int(rng.integers(1, 3))):
             name = g.new_name()
-            g.decl[name] = [[n], 'float']
-            fields.append(['field', name, be, []])
+            if rng.random() < .3 and n <= 12:
+                # tensor-valued field: a 3-axis argument (ndofs, 2, 3) / (ndofs, 3, 2), contracted to a scalar
+                extra = [2, 3] if rng.random() < .5 else [3, 2]
+                g.decl[name] = [[n] + extra, 'float']
+                fe = ['field', name, be, extra]
+                fields.append(['sum', ['sum', ['b', 'mul', fe, ['const', enc(rand_const(rng, tuple(extra), 'float'))]], 1], 0])
+            else:
+                g.decl[name] = [[n], 'float']
+                fields.append(['field', name, be, []])
         w = None
         if rng.random() < .5:
             wname = g.new_arg((T.ndims,), 'float')
@@ -913,7 +928,7 @@ def gen_polynomial(rng, tier):
                     facs.append(w)
                 else:
                     f = fields[int(rng.integers(len(fields)))]
-                    facs.append(f if rng.random() < .7 or (bt, deg) == ('discont', 0) else ['sum', ['grad', f, g.topo_key], 0])
+                    facs.append(f if rng.random() < .7 or (bt, deg) == ('discont', 0) or f[0] != 'field' else ['sum', ['grad', f, g.topo_key], 0])
                 d += 1
             prod = facs[0]
             for f in facs[1:]:
@@ -924,7 +939,7 @@ def gen_polynomial(rng, tier):
                 prod = ['b', 'mul', be, prod]
             atoms.append((['integral', g.topo_key, 'interior', int(rng.integers(1, 5)), prod], d))
     if not atoms or rng.random() < .5:
-        shape = g.rand_shape()
+        shape = g.rand_shape(p_high=.4)
         names = [g.new_arg(shape, 'float') for _ in range(nargs)]
         for _ in range(int(rng.integers(1, 4))):
             d = int(rng.integers(1, 4))
@@ -936,6 +951,8 @@ def gen_polynomial(rng, tier):
                 prod = ['b', 'mul', prod, ['const', enc(rand_const(rng, shape if rng.random() < .5 else (), 'float'))]]
             if shape and rng.random() < .3:
                 prod = ['sum', prod, int(rng.integers(len(shape)))]
+            elif len(shape) >= 2 and rng.random() < .15:
+                prod = ['u', 'T', prod]
             atoms.append((prod, d))
     # combine atoms of equal shape by addition; otherwise take one
     built = []
